@@ -423,6 +423,23 @@ def build_menu(c, sc, node, pool_sl, u):
 
         ser = DOMSerializer.from_schema(schema)
         return [str(ser.serialize_fragment(node.content))] + [str(ser.serialize_node(node.child(i))) for i in range(node.child_count)]
+
+    def dom_nodes():
+        """serialize_node on EVERY node of the document (marked inline nodes, pieces cut out of text nodes), twice."""
+        from prosemirror.model import DOMSerializer
+
+        ser = DOMSerializer.from_schema(schema)
+        outs = []
+        todo = [node.child(i) for i in range(node.child_count)]
+        while todo:
+            x = todo.pop()
+            outs.append(str(ser.serialize_node(x)))
+            outs.append(str(ser.serialize_node(x)))
+            if x.is_text and x.node_size > 1:
+                piece = x.cut(0, 1)
+                outs.append(str(ser.serialize_node(piece)))
+            todo.extend(x.child(i) for i in range(x.child_count))
+        return outs
     def dom_abandoned():
         """A parse that is abandoned by an exception while nested, equal mark elements are open (a user getAttrs
         callback returns attrs the node type rejects), and one that completes: neither may leave anything behind in
@@ -448,6 +465,9 @@ def build_menu(c, sc, node, pool_sl, u):
         if any(x != before for x in seen):
             raise AssertionError("mid-parse: live document serialised differently during a DOM parse")
         return outs
+    if all(t.spec.get("toDOM") or t.is_text or t is schema.top_node_type for t in schema.nodes.values()) and \
+            all(m.spec.get("toDOM") for m in schema.marks.values()):
+        add({"op": "DOM serialise every node"}, dom_nodes)
     if c.id in ("basic", "list"):
         add({"op": "DOM parse abandoned inside nested marks"}, dom_abandoned)
         add({"op": "DOM serialise/parse"}, dom)
